@@ -181,16 +181,9 @@ func Conv(f Format, val interface{}) (Value, error) {
 }
 
 func toInt8(val interface{}) (int8, error) {
-	switch x := val.(type) {
-	case uint8:
-		return int8(x), nil
-	case int8:
-		return x, nil
-	default:
-		i, err := toInt64(val)
-		if err == nil && i >= math.MinInt8 && i <= math.MaxInt8 {
-			return int8(i), nil
-		}
+	i, err := toInt64(val)
+	if err == nil && i >= math.MinInt8 && i <= math.MaxInt8 {
+		return int8(i), nil
 	}
 	return 0, fmt.Errorf("cannot coerse '%T' to int8", val)
 }
@@ -235,16 +228,9 @@ func toInt8List(val interface{}) ([]int8, error) {
 }
 
 func toUInt8(val interface{}) (uint8, error) {
-	switch x := val.(type) {
-	case int8:
-		return uint8(x), nil
-	case uint8:
-		return x, nil
-	default:
-		i, err := toUInt64(val)
-		if err == nil && i >= 0 && i <= math.MaxUint8 {
-			return uint8(i), nil
-		}
+	i, err := toUInt64(val)
+	if err == nil && i <= math.MaxUint8 {
+		return uint8(i), nil
 	}
 	return 0, fmt.Errorf("cannot coerse '%T' to uint8", val)
 }
@@ -289,20 +275,9 @@ func toUInt8List(val interface{}) ([]uint8, error) {
 }
 
 func toInt16(val interface{}) (int16, error) {
-	switch x := val.(type) {
-	case int8:
-		return int16(x), nil
-	case uint8:
-		return int16(x), nil
-	case uint16:
-		return int16(x), nil
-	case int16:
-		return x, nil
-	default:
-		i, err := toInt64(val)
-		if err == nil && i >= math.MinInt16 && i <= math.MaxInt16 {
-			return int16(i), nil
-		}
+	i, err := toInt64(val)
+	if err == nil && i >= math.MinInt16 && i <= math.MaxInt16 {
+		return int16(i), nil
 	}
 	return 0, fmt.Errorf("cannot coerse '%T' to int16", val)
 }
@@ -347,20 +322,9 @@ func toInt16List(val interface{}) ([]int16, error) {
 }
 
 func toUInt16(val interface{}) (uint16, error) {
-	switch x := val.(type) {
-	case int8:
-		return uint16(x), nil
-	case uint8:
-		return uint16(x), nil
-	case int16:
-		return uint16(x), nil
-	case uint16:
-		return x, nil
-	default:
-		i, err := toUInt64(val)
-		if err == nil && i >= 0 && i <= math.MaxUint16 {
-			return uint16(i), nil
-		}
+	i, err := toUInt64(val)
+	if err == nil && i <= math.MaxUint16 {
+		return uint16(i), nil
 	}
 	return 0, fmt.Errorf("cannot coerse '%T' to uint16", val)
 }
@@ -404,38 +368,10 @@ func toUInt16List(val interface{}) ([]uint16, error) {
 	return nil, fmt.Errorf("cannot coerse '%T' to []uint16", val)
 }
 
-func toInt32(val interface{}) (n int32, err error) {
-	switch x := val.(type) {
-	case int8:
-		return int32(x), nil
-	case uint8:
-		return int32(x), nil
-	case int16:
-		return int32(x), nil
-	case uint16:
-		return int32(x), nil
-	case int32:
-		return int32(x), nil
-	case uint32:
-		return int32(x), nil
-	case uint:
-		return int32(x), nil
-	case int:
-		return int32(x), nil
-	case int64:
-		return int32(x), nil
-	case string:
-		i, err := strconv.ParseInt(x, 10, 32)
-		return int32(i), err
-	case float64:
-		return int32(x), nil
-	case float32:
-		return int32(x), nil
-	default:
-		i, err := toInt64(val)
-		if err == nil && i >= math.MinInt32 && i <= math.MaxUint32 {
-			return int32(i), nil
-		}
+func toInt32(val interface{}) (int32, error) {
+	i, err := toInt64(val)
+	if err == nil && i >= math.MinInt32 && i <= math.MaxInt32 {
+		return int32(i), nil
 	}
 	return 0, fmt.Errorf("cannot coerse '%T' to int32", val)
 }
@@ -489,28 +425,9 @@ func toInt32List(val interface{}) ([]int32, error) {
 }
 
 func toUInt32(val interface{}) (uint32, error) {
-	switch x := val.(type) {
-	case int8:
-		return uint32(x), nil
-	case uint8:
-		return uint32(x), nil
-	case int16:
-		return uint32(x), nil
-	case uint16:
-		return uint32(x), nil
-	case int32:
-		return uint32(x), nil
-	case uint:
-		return uint32(x), nil
-	case int:
-		return uint32(x), nil
-	case uint32:
-		return x, nil
-	default:
-		i, err := toUInt64(val)
-		if err == nil && i <= math.MaxUint32 {
-			return uint32(i), nil
-		}
+	i, err := toUInt64(val)
+	if err == nil && i <= math.MaxUint32 {
+		return uint32(i), nil
 	}
 	return 0, fmt.Errorf("cannot coerse '%T' to uint32", val)
 }
@@ -580,17 +497,17 @@ func toInt64(val interface{}) (n int64, err error) {
 	case int:
 		return int64(x), nil
 	case uint:
-		return int64(x), nil
+		return uint64ToInt64(uint64(x))
 	case uint64:
-		return int64(x), nil
+		return uint64ToInt64(x)
 	case int64:
 		return x, nil
 	case string:
 		return strconv.ParseInt(x, 10, 64)
 	case float64:
-		return int64(x), nil
+		return floatToInt64(x)
 	case float32:
-		return int64(x), nil
+		return floatToInt64(float64(x))
 	case time.Time:
 		return x.Unix(), nil
 	default:
@@ -599,6 +516,36 @@ func toInt64(val interface{}) (n int64, err error) {
 		}
 	}
 	return 0, fmt.Errorf("cannot coerse '%T' to int64", val)
+}
+
+func uint64ToInt64(x uint64) (int64, error) {
+	if x > math.MaxInt64 {
+		return 0, fmt.Errorf("%d is out of range for int64", x)
+	}
+	return int64(x), nil
+}
+
+func int64ToUint64(x int64) (uint64, error) {
+	if x < 0 {
+		return 0, fmt.Errorf("%d is out of range for uint64", x)
+	}
+	return uint64(x), nil
+}
+
+// only whole numbers inside the int64 range convert, anything else would
+// silently become a different number
+func floatToInt64(x float64) (int64, error) {
+	if x != math.Trunc(x) || x < -9223372036854775808.0 || x >= 9223372036854775808.0 {
+		return 0, fmt.Errorf("%v is not a whole number in range of int64", x)
+	}
+	return int64(x), nil
+}
+
+func floatToUint64(x float64) (uint64, error) {
+	if x != math.Trunc(x) || x < 0 || x >= 18446744073709551616.0 {
+		return 0, fmt.Errorf("%v is not a whole number in range of uint64", x)
+	}
+	return uint64(x), nil
 }
 
 func toInt64List(val interface{}) ([]int64, error) {
@@ -658,34 +605,33 @@ func toInt64List(val interface{}) ([]int64, error) {
 func toUInt64(val interface{}) (uint64, error) {
 	switch x := val.(type) {
 	case int8:
-		return uint64(x), nil
+		return int64ToUint64(int64(x))
 	case uint8:
 		return uint64(x), nil
 	case int16:
-		return uint64(x), nil
+		return int64ToUint64(int64(x))
 	case uint16:
 		return uint64(x), nil
 	case int:
-		return uint64(x), nil
+		return int64ToUint64(int64(x))
 	case uint:
 		return uint64(x), nil
 	case int32:
-		return uint64(x), nil
+		return int64ToUint64(int64(x))
 	case uint32:
 		return uint64(x), nil
 	case int64:
-		return uint64(x), nil
+		return int64ToUint64(x)
 	case uint64:
 		return x, nil
 	case string:
-		i, err := strconv.ParseUint(x, 10, 64)
-		return uint64(i), err
+		return strconv.ParseUint(x, 10, 64)
 	case float64:
-		return uint64(x), nil
+		return floatToUint64(x)
 	case float32:
-		return uint64(x), nil
+		return floatToUint64(float64(x))
 	case time.Time:
-		return uint64(x.Unix()), nil
+		return int64ToUint64(x.Unix())
 	default:
 		if rv := reflect.ValueOf(val); rv.CanUint() {
 			return rv.Uint(), nil
@@ -761,17 +707,17 @@ func toDecimal64(val interface{}) (float64, error) {
 	case uint16:
 		return float64(x), nil
 	case int:
-		return float64(x), nil
+		return int64ToFloat(int64(x))
 	case uint:
-		return float64(x), nil
+		return uint64ToFloat(uint64(x))
 	case int32:
 		return float64(x), nil
 	case uint32:
 		return float64(x), nil
 	case uint64:
-		return float64(x), nil
+		return uint64ToFloat(x)
 	case int64:
-		return float64(x), nil
+		return int64ToFloat(x)
 	case float32:
 		return float64(x), nil
 	case float64:
@@ -780,6 +726,23 @@ func toDecimal64(val interface{}) (float64, error) {
 		return strconv.ParseFloat(x, 64)
 	}
 	return 0, fmt.Errorf("cannot coerse '%T' to float64", val)
+}
+
+// 64-bit integers beyond 2^53 convert only when float64 holds them exactly
+func int64ToFloat(x int64) (float64, error) {
+	f := float64(x)
+	if f >= 9223372036854775808.0 || int64(f) != x {
+		return 0, fmt.Errorf("%d cannot be represented exactly as decimal64", x)
+	}
+	return f, nil
+}
+
+func uint64ToFloat(x uint64) (float64, error) {
+	f := float64(x)
+	if f >= 18446744073709551616.0 || uint64(f) != x {
+		return 0, fmt.Errorf("%d cannot be represented exactly as decimal64", x)
+	}
+	return f, nil
 }
 
 func toDecimal64List(val interface{}) ([]float64, error) {
